@@ -451,7 +451,7 @@ func collectSignedHeaders(r *http.Request, headersToInclude []string) []pair {
 	for headerKey, headerValues := range r.Header {
 		headerKey = strings.ToLower(headerKey)
 		if includeInCanonicalHeaders(headerKey, headersToInclude) {
-			headerVal := strings.TrimSpace(strings.Join(headerValues, ","))
+			headerVal := collapseSpaces(strings.TrimSpace(strings.Join(headerValues, ",")))
 			headers = append(headers, pair{
 				key: headerKey,
 				val: headerVal,
@@ -462,6 +462,26 @@ func collectSignedHeaders(r *http.Request, headersToInclude []string) []pair {
 		return cmp.Compare(a.key, b.key)
 	})
 	return headers
+}
+
+// collapseSpaces converts runs of spaces into a single space, as SigV4 requires
+// for canonical header values ("convert sequential spaces to a single space").
+func collapseSpaces(value string) string {
+	if !strings.Contains(value, "  ") {
+		return value
+	}
+	var collapsed strings.Builder
+	collapsed.Grow(len(value))
+	previousWasSpace := false
+	for idx := 0; idx < len(value); idx++ {
+		ch := value[idx]
+		if ch == ' ' && previousWasSpace {
+			continue
+		}
+		previousWasSpace = ch == ' '
+		collapsed.WriteByte(ch)
+	}
+	return collapsed.String()
 }
 
 func generateCanonicalHeaders(r *http.Request, headersToInclude []string) string {
